@@ -10,7 +10,7 @@ from .c08 import C08
 from .c09 import C09
 
 # operators whose output header depends on the data (sampled fields, pivoted values ...): the "usual header" test is skipped
-HDR_FROM_DATA = {'recast', 'recast:variablefield', 'pivot', 'transpose', 'unpackdict:sample', 'facet', 'fromcolumns',
+HDR_FROM_DATA = {'recast', 'recast:variablefield', 'pivot', 'transpose', 'unpackdict:sample', 'unpackdict:default', 'facet', 'fromcolumns',
                  'unflatten', 'flatten', 'cat:header'}
 # data rows expected when EVERY input is header-only (default 0)
 EXPECT_ROWS = {'pushheader': 1, 'aggregate:nokey:simple': 1, 'transpose': 2, 'parsecounts': 2,
